@@ -9,10 +9,14 @@ namespace TxVerif
 theorem gW_full (S : Nat) (h4 : 4 ≤ S) (fin : List (List UInt8)) : ∀ p ∈ gW S 0 fin, p.payload.length = S :=
   writeEvents_full S h4 fin QPage.fresh 0 (by simp)
 
-theorem BufInv_reopen (S pages : Nat) (h4 : 4 ≤ S) (s : WState) (fin : List (List UInt8)) (cur : List UInt8)
-    (h : BufInv S 0 s fin cur) (hall : s.tailId = fin.length) :
+/-- what `newWriter` needs from the file: the visible chain is the layout of the events `fin`, all of which are
+    persisted, and the tail offset is the end of that layout -/
+theorem BufInv_reopen_of (S pages : Nat) (h4 : 4 ≤ S) (s : WState) (fin : List (List UInt8))
+    (hvis0 : s.visible = layoutS S 0 (fin.take (s.tailId - 0)))
+    (htoff : s.tailOff = if s.tailId = 0 then 0 else 28 + (gc S 0 (fin.take (s.tailId - 0))).payload.length)
+    (hall : s.tailId = fin.length) :
     BufInv S 0 (s.reopen S pages) fin [] := by
-  have hv := h.vis
+  have hv := hvis0
   simp only [Nat.sub_zero, hall, List.take_length] at hv
   by_cases hfin : fin = []
   · -- nothing was ever flushed: a new writer on an empty queue
@@ -23,7 +27,7 @@ theorem BufInv_reopen (S pages : Nat) (h4 : 4 ≤ S) (s : WState) (fin : List (L
       simp only [WState.visible, cutAt_length, List.length_nil] at hl
       exact List.length_eq_zero_iff.mp hl
     have ht : s.tailOff = 0 := by
-      have := h.tailOff_eq
+      have := htoff
       simp only [List.length_nil] at hall
       rwa [if_pos hall] at this
     have e : s.reopen S pages = WState.init S pages 0 := by
@@ -69,12 +73,12 @@ theorem BufInv_reopen (S pages : Nat) (h4 : 4 ≤ S) (s : WState) (fin : List (L
       · intro _; rw [er]; simp only [hdl, hfull]
       · intro hh; rw [er] at hh; simp [WState.headAssigned] at hh
       · intro _; rw [er]; exact ⟨[], ⟨gc S 0 fin, false, true⟩, rfl, rfl⟩
-      · rw [hvis', h.vis]; simp only [WState.reopen, hgl]
+      · rw [hvis', hvis0]; simp only [WState.reopen, hgl]
       · simp only [WState.reopen, hgl]; rw [hall]; omega
       · left
         rw [er]
         refine ⟨by simp, by simp, by simp [WState.hpDirty, BPage.new], by simp [hall]⟩
-      · have := h.tailOff_eq
+      · have := htoff
         simp only [WState.reopen, hgl]
         exact this
     · have hb : ghb S 0 fin = gc S 0 fin := by simp [ghb, reserveHdr, hpad]
@@ -96,14 +100,19 @@ theorem BufInv_reopen (S pages : Nat) (h4 : 4 ≤ S) (s : WState) (fin : List (L
       · intro _; rw [er]; simp only [hdl, hfull]
       · intro hh; rw [er] at hh; simp [WState.headAssigned] at hh
       · intro hp; exact absurd hp hpad
-      · rw [hvis', h.vis]; simp only [WState.reopen, hgl]
+      · rw [hvis', hvis0]; simp only [WState.reopen, hgl]
       · simp only [WState.reopen, hgl]; rw [hall]; omega
       · left
         rw [er]
         refine ⟨by simp, by simp, by simp [WState.hpDirty], by simp [hall]⟩
-      · have := h.tailOff_eq
+      · have := htoff
         simp only [WState.reopen, hgl]
         exact this
+
+theorem BufInv_reopen (S pages : Nat) (h4 : 4 ≤ S) (s : WState) (fin : List (List UInt8)) (cur : List UInt8)
+    (h : BufInv S 0 s fin cur) (hall : s.tailId = fin.length) :
+    BufInv S 0 (s.reopen S pages) fin [] :=
+  BufInv_reopen_of S pages h4 s fin h.vis h.tailOff_eq hall
 
 theorem reopen_fields (S pages : Nat) (s : WState) :
     (s.reopen S pages).persisted = s.persisted ∧ (s.reopen S pages).tailId = s.tailId ∧
